@@ -272,7 +272,7 @@ package genql
 
 //@ func ExecSelect
 //@   loop 0 ascending-range rows[C20,C02]: current
-//@   at-call append:append(copy, current) assert nested-untouched[C08]: typeis(current[rangeindex + 1], []any) && len(current[rangeindex + 1].([]any)) > 0 ==> appended == current[rangeindex + 1]
+//@   at-call append@loop0 assert nested-untouched[C08]: typeis(rangevalue, []any) && len(rangevalue.([]any)) > 0 ==> appended == rangevalue
 
 //@ func SelectExpr
 //@   loop 0 ascending-range items[C20,C02]: expr.Exprs
